@@ -498,6 +498,21 @@ def rule_r14(ctx):
         raise AnalysisBroken("resumable HTTP parsers not found")
 
 
+# ---------------------------------------------------------------------------
+# R15: a partial write of an HTTP message / WebSocket frame is resumed where it stopped
+
+
+def rule_r15(ctx):
+    from . import c01
+    r = ctx.rule("C16.R15", "T2", "a short write is resumed where it stopped: http_wr_cb advances the iov of its own aio by that aio's count, "
+                 "decides 'more to transmit' by nni_aio_iov_count of the advanced iov, and on that edge re-submits the same aio "
+                 "with nng_stream_send without completing anything and without going back to http_wr_start (which reloads the "
+                 "iov from the user's aio, i.e. from byte 0) -- otherwise the rest of a response, request or WebSocket frame is "
+                 "never sent, or the frame is sent again behind its own first part", floor=2)
+    fn = ctx.prog.need("http_wr_cb", "supplemental/http/http_conn.c")
+    c01.check_resume(ctx, r, fn, True, residual_only=True)
+
+
 def run(ctx):
     ctx.guard(rule_r1)
     ctx.guard(rule_r2)
@@ -514,3 +529,4 @@ def run(ctx):
     ctx.guard(rule_r12)
     ctx.guard(rule_r13)
     ctx.guard(rule_r14)
+    ctx.guard(rule_r15)
